@@ -69,6 +69,7 @@ func main() {
 	phase("synthetic-nets+constructors", func() { runSyntheticNets(rng); runConstructors(rng) })
 	phase("json", func() { runJSON(rng) })
 	phase("wire", func() { runWire(rng) })
+	phase("bloom-scripts", func() { runBloomScripts(rng) })
 	phase("gcs", runGCS)
 	phases["total"] = time.Since(t0).Milliseconds()
 	finish()
